@@ -13,6 +13,10 @@ var substTable = map[string]string{
 	"context.WithValue": "WithValue",
 	"context.WithCancel": "WithCancel",
 	"time.AfterFunc":     "AfterFunc",
+	"encoding/json.MarshalIndent": "JSONMarshalIndent",
+	"(net/http.Header).Set": "HeaderSet",
+	"(net/http.Header).Add": "HeaderAdd",
+	"(net/http.Header).Get": "HeaderGet",
 	"(*time.Timer).Stop": "TimerStop",
 	"errors.Is":         "ErrorsIs",
 	"storj.io/drpc/drpcmanager.isConnectionReset": "NotConnReset",
